@@ -406,7 +406,7 @@ Definition get_uint32 st := get_uint max32 st 10.
 Definition get_uint48 st := get_uint max48 st 10.
 Definition get_string (st : tstate) (max_length : Z) : res (list Z * tstate) :=
   do ts <- get_unescaped st; do v <- as_string (fst ts) max_length; Ok (v, snd ts).
-(* Tokenizer.get_string_as_bytes(max_length): octet-valued character-string (fix 83744a5) *)
+(* Tokenizer.get_string_as_bytes(max_length): octet-valued character-string (fix ae0ac04) *)
 Definition get_string_as_bytes (st : tstate) (max_length : Z) : res (list Z * tstate) :=
   do ts <- get0 st;
   do t <- unescape_to_bytes (fst ts);
